@@ -301,6 +301,24 @@ func (p *Program) RunEntry(entry string) *Result {
 	var mu sync.Mutex
 	var wg sync.WaitGroup
 	rng := rand.New(rand.NewSource(int64(p.Cfg.Seed) + 1))
+	if os.Getenv("GOSX_PROGRESS") != "" {
+		stopProg := make(chan struct{})
+		defer close(stopProg)
+		go func() {
+			for {
+				select {
+				case <-stopProg:
+					return
+				case <-time.After(5 * time.Second):
+					mu.Lock()
+					q.mu.Lock()
+					fmt.Fprintf(os.Stderr, "progress %s: paths=%d infeasible=%d queue=%d steps=%d viol=%d\n", entry, res.Paths, res.Infeasible, len(q.items), res.Steps, len(res.Violations))
+					q.mu.Unlock()
+					mu.Unlock()
+				}
+			}
+		}()
+	}
 	atomic.StoreInt64(&p.doneCount, 0)
 	for w := 0; w < workers; w++ {
 		wg.Add(1)
